@@ -20,6 +20,7 @@ open GIV GIV.TsLife
 
 instance : FGrace := ⟨rfl, rfl, rfl, rfl⟩
 instance : FDeadline := ⟨rfl, rfl, rfl⟩
+instance : FCtxOnce := ⟨rfl, rfl⟩
 instance : FExec := ⟨rfl, rfl, rfl⟩
 instance : FWos := ⟨rfl, rfl, rfl, rfl, rfl, rfl, rfl⟩
 
@@ -48,6 +49,23 @@ theorem grace_bounds : ∀ timeout : Int,
 example : plan 1000000000 = ⟨100000000, 800000000, 900000000⟩ := by decide
 example : plan 3000000000 = ⟨150000000, 2700000000, 2850000000⟩ := by decide
 example : plan 150000000 = ⟨100000000, -50000000, 50000000⟩ := by decide
+
+/-- The deadline is absolute: whenever a script's subtest function starts — at once, or long after
+RunT was called because subtests run one after the other or wait for a slot — its context expires
+at `RunT-call time + timeout − 2g` = `Deadline − 2g`, and an ignoring command is killed at
+`Deadline − g`: neither depends on the script's start time, because one context is created once
+per RunT call, outside the per-script function. -/
+theorem deadline_is_absolute : ∀ (call start timeout : Int),
+    scriptCtxExpiry call start timeout = (call + timeout) - 2 * grace timeout ∧
+    scriptCtxExpiry call start timeout + fgKillDelay timeout = (call + timeout) - grace timeout ∧
+    scriptCtxExpiry call start timeout = scriptCtxExpiry call call timeout := by
+  intro call start timeout
+  have h1 := scriptCtxExpiry_eq call start timeout
+  have h2 := scriptCtxExpiry_eq call call timeout
+  refine ⟨by omega, ?_, by omega⟩
+  simp only [fgKillDelay]; omega
+
+example : scriptCtxExpiry 0 2400000000 4000000000 = 3600000000 := by decide
 
 /-- "5% of the remaining time, if time allows": the minimum up to two seconds, a twentieth beyond;
 and the scripts keep at least 90% of the time. -/
